@@ -39,6 +39,8 @@ impl Probed for TRec {
     }
 }
 
+const C10_SIDE_V: i64 = -424_242;
+
 #[derive(Clone, Copy, Debug, PartialEq, Eq, Serialize)]
 enum BodyOp {
     /// v += state.acc % 7 + 1 (reads the state)
@@ -51,6 +53,12 @@ enum BodyOp {
     KeyedSum,
     /// artificial work per element (us), to vary the relative speed of data and state links
     Work(u64),
+    /// an inner replay loop (its own state) whose body adds the inner state; the element that
+    /// continues is derived from the inner loop's final state
+    Nested { rounds: usize, stop_m: i64 },
+    /// `side.merge(loop stream)`: a stream from outside the loop is the LEFT input of a binary
+    /// block inside the body (its elements are dropped again right after the state check)
+    SideLeftMerge,
 }
 
 #[derive(Clone, Debug, Serialize)]
@@ -88,6 +96,7 @@ fn build_body(
     ops: &[BodyOp],
     st: IterationStateHandle<LState>,
     mon: Arc<TagMonitor>,
+    mut side: Option<BStream<TRec>>,
 ) -> BStream<TRec> {
     // first operator of the body: tag with the round read from the state
     let st0 = st.clone();
@@ -121,11 +130,31 @@ fn build_body(
                     t
                 })
                 .boxed(),
+            BodyOp::Nested { rounds, stop_m } => {
+                let mon_in = mon.clone();
+                let st_out = st.clone();
+                s.shuffle()
+                    .replay(
+                        rounds,
+                        LState::default(),
+                        move |s, st_in| build_body(s.boxed(), &[BodyOp::AddState, BodyOp::Shuffle], st_in, mon_in, None),
+                        |d: &mut i64, t: TRec| *d = d.wrapping_add(t.r.v),
+                        |st: &mut LState, d: i64| st.acc = st.acc.wrapping_add(d),
+                        move |st: &mut LState| cond(st, stop_m, 0),
+                    )
+                    .map(move |fin: LState| TRec { r: Rec { id: mix(fin.round as u64, fin.acc as u64), k: 0, v: fin.acc.rem_euclid(1000) + fin.round as i64 }, tag: st_out.get().round })
+                    .boxed()
+            }
+            BodyOp::SideLeftMerge => match side.take() {
+                Some(sd) => sd.merge(s).boxed(),
+                None => s,
+            },
         };
         // after every operator: re-read the state and compare with the tag
         let st2 = st.clone();
         let mon2 = mon.clone();
         s = s
+            .filter(|t: &TRec| t.r.v != C10_SIDE_V)
             .map(move |t: TRec| {
                 let now = st2.get().round;
                 mon2.checks.fetch_add(1, Ordering::Relaxed);
@@ -152,7 +181,22 @@ fn ref_body(input: &[TRec], ops: &[BodyOp], st: &LState) -> Vec<TRec> {
     for op in ops {
         v = match *op {
             BodyOp::AddState => v.into_iter().map(|t| f_add_state(t, st)).collect(),
-            BodyOp::Shuffle | BodyOp::GroupBy | BodyOp::Work(_) => v,
+            BodyOp::Shuffle | BodyOp::GroupBy | BodyOp::Work(_) | BodyOp::SideLeftMerge => v,
+            BodyOp::Nested { rounds, stop_m } => {
+                // sequential meaning of the inner loop: starts from the initial state every time
+                let mut ist = LState::default();
+                let mut round = 0;
+                loop {
+                    let out = ref_body(&v, &[BodyOp::AddState, BodyOp::Shuffle], &ist);
+                    let delta = out.iter().fold(0i64, |d, t| d.wrapping_add(t.r.v));
+                    ist.acc = ist.acc.wrapping_add(delta);
+                    round += 1;
+                    if !(cond(&mut ist, stop_m, 0) && round < rounds) {
+                        break;
+                    }
+                }
+                vec![TRec { r: Rec { id: mix(ist.round as u64, ist.acc as u64), k: 0, v: ist.acc.rem_euclid(1000) + ist.round as i64 }, tag: st.round }]
+            }
             BodyOp::Filter(m) => v.into_iter().filter(|t| t.r.v.rem_euclid(m) != 0).collect(),
             BodyOp::KeyedSum => {
                 let mut m: BTreeMap<u32, TRec> = BTreeMap::new();
@@ -206,14 +250,21 @@ fn gen_loop_case(rng: &mut Rng, thorough: bool) -> LoopCase {
     let nops = rng.usize(1, 5);
     let mut body = Vec::new();
     for _ in 0..nops {
-        body.push(match rng.below(9) {
+        body.push(match rng.below(12) {
             0 | 1 => BodyOp::AddState,
             2 | 3 => BodyOp::Shuffle,
             4 => BodyOp::GroupBy,
             5 => BodyOp::Filter(rng.range(2, 6)),
             6 => BodyOp::KeyedSum,
-            _ => BodyOp::Work(rng.below(300) + 1),
+            7 | 8 => BodyOp::Work(rng.below(300) + 1),
+            9 if !iterate && !body.iter().any(|b| matches!(b, BodyOp::Nested { .. })) => BodyOp::Nested { rounds: rng.usize(1, 4), stop_m: rng.range(2, 5) },
+            10 | 11 if !body.contains(&BodyOp::SideLeftMerge) => BodyOp::SideLeftMerge,
+            _ => BodyOp::AddState,
         });
+    }
+    // the element after a side input is checked against the state: make sure a state read follows
+    if body.last() == Some(&BodyOp::SideLeftMerge) {
+        body.push(BodyOp::AddState);
     }
     // iterate: keep the per-round volume far below the buffering of the feedback cycle
     // (known finding F8 belongs to C04)
@@ -298,11 +349,18 @@ pub fn run_c10(args: &Args, report: &mut Report) {
                 let body = c2.body.clone();
                 let mon3 = mon2.clone();
                 let (m, r) = (c2.stop_m, c2.stop_r);
+                // a small stream from outside the loop, for bodies with a (left) side input
+                let side = body.contains(&BodyOp::SideLeftMerge).then(|| {
+                    ctx.stream_iter((0..7u64).map(|i| TRec { r: Rec { id: 900_000 + i, k: (i % 3) as u32, v: C10_SIDE_V }, tag: 0 }))
+                        .batch_mode(batch)
+                        .shuffle()
+                        .boxed()
+                });
                 if c2.iterate {
                     let (st, out) = src.iterate(
                         c2.rounds,
                         LState::default(),
-                        move |s, st| build_body(s.boxed(), &body, st, mon3),
+                        move |s, st| build_body(s.boxed(), &body, st, mon3, side),
                         |d: &mut i64, t: TRec| *d = d.wrapping_add(t.r.v),
                         |st: &mut LState, d: i64| st.acc = st.acc.wrapping_add(d),
                         move |st: &mut LState| cond(st, m, r),
@@ -312,7 +370,7 @@ pub fn run_c10(args: &Args, report: &mut Report) {
                     let st = src.replay(
                         c2.rounds,
                         LState::default(),
-                        move |s, st| build_body(s.boxed(), &body, st, mon3),
+                        move |s, st| build_body(s.boxed(), &body, st, mon3, side),
                         |d: &mut i64, t: TRec| *d = d.wrapping_add(t.r.v),
                         |st: &mut LState, d: i64| st.acc = st.acc.wrapping_add(d),
                         move |st: &mut LState| cond(st, m, r),
@@ -328,7 +386,10 @@ pub fn run_c10(args: &Args, report: &mut Report) {
             "layout":layout.name(),"batch":format!("{batch:?}"),"policy":pname,"expected_rounds":want.rounds,
             "expected_final_state":format!("{:?}", want.final_state),"tag_checks":mon.checks.load(Ordering::Relaxed),"error":err});
         if !res.all_ok() {
-            report.case(Verdict::Inconclusive, None, || detail(Some(format!("job failed: {:?} {:?}", res.end, res.panic_messages()))));
+            let msgs = res.panic_messages().join(" | ");
+            let env_problem = msgs.contains("Failed to bind") || msgs.contains("Failed to connect") || msgs.is_empty();
+            let v = if env_problem { Verdict::Inconclusive } else { Verdict::Violated };
+            report.case(v, (!env_problem).then_some(h), || detail(Some(format!("a valid loop job crashed instead of terminating: {:?} {msgs}", res.end))));
             continue;
         }
         report.count("loop_jobs", 1);
@@ -406,6 +467,8 @@ struct SideCase {
     /// per-element work in the body (us): makes a round slower than the adaptive batch delay
     work_us: u64,
     side_shuffled: bool,
+    /// the outside stream is the left operand of the binary operator
+    side_left: bool,
 }
 
 pub fn run_c11(args: &Args, report: &mut Report) {
@@ -423,6 +486,7 @@ pub fn run_c11(args: &Args, report: &mut Report) {
             keys: *crng.pick(&[1u32, 3, 10]),
             work_us: *crng.pick(&[0u64, 0, 50, 400, 3000]),
             side_shuffled: true,
+            side_left: crng.chance(1, 2),
         };
         let layout = loop_layout(&mut crng);
         // adaptive batching with a delay below the round time is what real jobs have
@@ -456,6 +520,7 @@ pub fn run_c11(args: &Args, report: &mut Report) {
                 let tr3 = tr2.clone();
                 let work = c2.work_us;
                 let kind = c2.kind;
+                let side_left = c2.side_left;
                 let body = move |s: BStream<Rec>, _st: IterationStateHandle<LState>| -> BStream<Rec> {
                     let s = if work > 0 {
                         s.map(move |r| {
@@ -467,22 +532,22 @@ pub fn run_c11(args: &Args, report: &mut Report) {
                         s
                     };
                     match kind {
-                        SideKind::Merge => s
-                            .merge(side_stream)
+                        SideKind::Merge => (if side_left { side_stream.merge(s).boxed() } else { s.merge(side_stream).boxed() })
                             .probed(RecProbe::new(1, "after-merge", &tr3))
                             // side elements are observed and then dropped, so that an iterate
                             // loop does not feed them back
                             .filter(|r| r.v != SIDE_V)
                             .map(|r| Rec { id: mix(r.id, 1), ..r })
                             .boxed(),
-                        SideKind::Join => s
-                            .join(side_stream, |r: &Rec| r.k, |r: &Rec| r.k)
-                            .unkey()
+                        SideKind::Join => (if side_left {
+                            side_stream.join(s, |r: &Rec| r.k, |r: &Rec| r.k).unkey().map(|(k, (sd, l))| (k, (l, sd))).boxed()
+                        } else {
+                            s.join(side_stream, |r: &Rec| r.k, |r: &Rec| r.k).unkey().boxed()
+                        })
                             .map(|(_, (l, r))| Rec { id: mix(l.id, r.id), k: r.id as u32, v: l.v })
                             .probed(RecProbe::new(1, "after-join", &tr3))
                             .boxed(),
-                        SideKind::Zip => s
-                            .zip(side_stream)
+                        SideKind::Zip => (if side_left { side_stream.zip(s).map(|(sd, l)| (l, sd)).boxed() } else { s.zip(side_stream).boxed() })
                             .map(|(l, r)| Rec { id: r.id, k: l.k, v: l.v })
                             .probed(RecProbe::new(1, "after-zip", &tr3))
                             .boxed(),
@@ -519,8 +584,11 @@ pub fn run_c11(args: &Args, report: &mut Report) {
             "layout":layout.name(),"batch":format!("{batch:?}"),"policy":pname,"error":err});
         if !res.all_ok() {
             // "the loop still terminates": a certificate is handled by the runner (exit 3); a
-            // panic is reported here
-            report.case(Verdict::Inconclusive, None, || detail(Some(format!("job failed: {:?} {:?}", res.end, res.panic_messages()))));
+            // crash of a valid job is reported here
+            let msgs = res.panic_messages().join(" | ");
+            let env_problem = msgs.contains("Failed to bind") || msgs.contains("Failed to connect") || msgs.is_empty();
+            let v = if env_problem { Verdict::Inconclusive } else { Verdict::Violated };
+            report.case(v, (!env_problem).then_some(h), || detail(Some(format!("a valid loop job with a side input crashed instead of terminating: {:?} {msgs}", res.end))));
             continue;
         }
         let rounds = c.rounds.max(1);
